@@ -514,7 +514,7 @@ func freshOnlyPrefixes(e Expr) []string {
 			return append(freshOnlyPrefixes(x.X), freshOnlyPrefixes(x.Y)...)
 		}
 	case ECall:
-		if x.Fun == "only_fresh_modified" && len(x.Args) == 1 {
+		if (x.Fun == "only_fresh_modified" || x.Fun == "heap_unchanged_except") && len(x.Args) == 1 {
 			if s, ok := x.Args[0].(EStr); ok {
 				return []string{s.V}
 			}
